@@ -26,7 +26,7 @@ def required(tier):
     b.update({f'path:{k}': 2 for k in ('constant', 'squared', 'sine', 'rfi', 'custom_scalar')})
     b.update({f'pform:{k}': 2 for k in ('callable', 'array', 'list', 'scalar', 'int')})
     b.update({f'tprof:{k}': 2 for k in ('constant', 'sine', 'pgauss', 'custom_scalar', 'custom_poly')})
-    b.update({f'fprof:{k}': 2 for k in ('box', 'gaussian', 'multi', 'lorentzian', 'voigt', 'sinc2')})
+    b.update({f'fprof:{k}': 2 for k in ('box', 'gaussian', 'multi', 'lorentzian', 'voigt', 'sinc2', 'custom_abs')})
     b.update({f'bp:{k}': 2 for k in work_sig.BP_KINDS})
     b.update({f'bound:{k}': 2 for k in set(work_sig.BOUND_KINDS)})
     b.update({'orient:asc': 10, 'orient:desc': 10, 'array-path-with-smearing': 2, 'validation-probe': 10,
